@@ -21,7 +21,7 @@ fn card_of(t: &Trace) -> u32 {
 
 /// WHICH selects the failing instruction; DEPTH = number of extra call frames (0 or 1)
 pub fn failing_instruction<S: Src, const WHICH: u8, const DEPTH: u8>(s: &mut S) {
-    let mut rig = Rig::new(if WHICH == 4 { 3 } else { 8 }, 4, 1 << 16);
+    let mut rig = Rig::new_with_trace(if WHICH == 4 { 3 } else { 8 }, 4, 1 << 16);
     let x = s.i64();
     let mut a = Asm::new();
     // filler instruction at address 0 (card 10)
@@ -92,7 +92,7 @@ pub fn failing_instruction<S: Src, const WHICH: u8, const DEPTH: u8>(s: &mut S) 
 
 /// Timeout is attributed to the instruction that was about to execute
 pub fn timeout_location<S: Src>(s: &mut S) {
-    let mut rig = Rig::new(8, 4, 1 << 16);
+    let mut rig = Rig::new_with_trace(8, 4, 1 << 16);
     let _ = s.u8();
     let mut a = Asm::new();
     a.op(op::SCALAR_NIL);
